@@ -108,6 +108,7 @@ func verifAssert(c bool, msg string) {
 func verifKnown(id string, c bool) {}
 func verifReach(label string)     {}
 func verifNote(msg string)        {}
+func verifIsReplay() bool         { return true }
 func verifFmtExact(on bool)      {}
 func verifIteByte(c bool, a, b byte) byte {
 	if c {
